@@ -555,6 +555,7 @@ cpc_sketch_alloc<A> cpc_sketch_alloc<A>::deserialize(std::istream& is, uint64_t 
       kxp = read<double>(is);
       hip_est_accum = read<double>(is);
     }
+    if (!is.good()) throw std::runtime_error("error reading from std::istream");
     if (!has_window) compressed.table_num_entries = num_coupons;
     cpc_compressor<A>::check_compressed_sizes(compressed, lg_k);
     if (has_window) {
@@ -565,6 +566,7 @@ cpc_sketch_alloc<A> cpc_sketch_alloc<A>::deserialize(std::istream& is, uint64_t 
       compressed.table_data.resize(compressed.table_data_words);
       read(is, compressed.table_data.data(), compressed.table_data_words * sizeof(uint32_t));
     }
+    if (!is.good()) throw std::runtime_error("error reading from std::istream");
   } else {
     kxp = std::ldexp(1.0, lg_k); // empty sketch: HIP registers are not in the image, same state as a new sketch
   }
